@@ -27,7 +27,7 @@ func iosVals(full bool) []*intstr.IntOrString {
 	if full {
 		return []*intstr.IntOrString{nil, mi(0), mi(-1), mi(1), mi(1<<31 - 1), mk("10%"), mk("150%"), mk("abc"), mk("%")}
 	}
-	return []*intstr.IntOrString{nil, mi(0), mi(1), mk("10%"), mk("abc")}
+	return []*intstr.IntOrString{nil, mi(0), mi(-1), mi(1), mk("10%"), mk("abc")}
 }
 
 func i32Vals(vals ...int64) []*int32 {
@@ -276,7 +276,7 @@ func canarySpecs(level int) []*v1.ExtendedDaemonSetSpecStrategyCanary {
 func rollingSpecs(full bool) []v1.ExtendedDaemonSetSpecStrategy {
 	var out []v1.ExtendedDaemonSetSpecStrategy
 	ios := iosVals(full)
-	par := i32Vals(0, 1)
+	par := i32Vals(0, -1, 1)
 	ivs := durVals(0, time.Minute)
 	if full {
 		par = i32Vals(0, -1, 1, 1<<31-1)
@@ -302,6 +302,13 @@ func rollingSpecs(full bool) []v1.ExtendedDaemonSetSpecStrategy {
 // c16reconcile drives both reconcilers through a first deployment, a canary with a restarting pod and
 // a later moment, with the given spec; any panic is a violation.
 func c16reconcile(t *testing.T, run *h.Run, spec *v1.ExtendedDaemonSetSpec, mode v1.ExtendedDaemonSetSpecStrategyCanaryValidationMode) {
+	c16reconcileVariant(t, run, spec, mode, false)
+	if spec.Strategy.Canary != nil {
+		c16reconcileVariant(t, run, spec, mode, true)
+	}
+}
+
+func c16reconcileVariant(t *testing.T, run *h.Run, spec *v1.ExtendedDaemonSetSpec, mode v1.ExtendedDaemonSetSpecStrategyCanaryValidationMode, dropCanary bool) {
 	eds := w.MkEDS("ns", "foo", w.Tpl("A"))
 	eds.Spec.Strategy = *spec.Strategy.DeepCopy()
 	eds.Spec.Template.Name = spec.Template.Name
@@ -351,6 +358,23 @@ func c16reconcile(t *testing.T, run *h.Run, spec *v1.ExtendedDaemonSetSpec, mode
 		for i := 0; i < 3; i++ {
 			all()
 			time.Sleep(11 * time.Second)
+		}
+		if dropCanary {
+			// the user removes spec.strategy.canary while the canary is in progress (the remaining spec is complete and
+			// defaulted); the replica sets are reconciled BEFORE the ExtendedDaemonSet controller has seen the edit
+			if err := in.Get(ctx, types.NamespacedName{Namespace: "ns", Name: "foo"}, e); err == nil && e.Spec.Strategy.Canary != nil {
+				e.Spec.Strategy.Canary = nil
+				_ = in.Update(ctx, e)
+				erss := &v1.ExtendedDaemonSetReplicaSetList{}
+				_ = in.List(ctx, erss)
+				for _, r := range erss.Items {
+					report("R_ers(spec.strategy.canary removed during the canary)", l.ReconcileERS(r.Namespace, r.Name))
+				}
+				run.Count("antecedent:C16/canary-removed-mid-canary", 1)
+			}
+			all()
+			all()
+			return
 		}
 		// a restart on every new-template pod, then a later look
 		pods := &corev1.PodList{}
